@@ -290,6 +290,20 @@ def table(check, prog):
                   'looks up lut[initial][desired]', prog.loc(q, prog.func(q)))
 
 
+def mod_form(t):
+    """np.mod(a, b) / np.remainder(a, b) / np.asarray(a) % b  ->  a % b"""
+    if not isinstance(t, tuple) or not t or not isinstance(t[0], str):
+        return t
+    t = tuple(mod_form(x) if isinstance(x, tuple) else x for x in t)
+    if t[0] == 'call' and t[1] in ('numpy.mod', 'numpy.remainder', 'numpy.fmod') and \
+            len(t[2]) == 2 and not t[3] and t[1] != 'numpy.fmod':
+        return intern(('bin', '%', t[2][0], t[2][1]))
+    if t[0] == 'bin' and t[1] == '%' and t[2][0] == 'call' and \
+            t[2][1] in ('numpy.asarray', 'numpy.asanyarray') and len(t[2][2]) == 1:
+        return intern(('bin', '%', t[2][2][0], t[3]))
+    return intern(t)
+
+
 def conv(prog, name, arg):
     q = MATH + name
 
@@ -304,7 +318,7 @@ def conv(prog, name, arg):
     v = res.ret
     if v[0] == 'call' and v[1] == 'numpy.array' and v[2] and v[2][0][0] == 'list' \
             and len(v[2][0][1]) == 3:
-        return list(v[2][0][1])
+        return [mod_form(x) for x in v[2][0][1]]
     raise AnalysisError('%s does not return np.array([a, b, c]): %s' % (
         name, show(v)[:120]))
 
